@@ -386,5 +386,6 @@ import fam_keepalive, fam_wake, fam_tls
 FAMILY["C16"] = fam_keepalive.check
 FAMILY["C12"] = fam_wake.check
 FAMILY["C17"] = fam_tls.check
-import fam_gate
+import fam_gate, fam_retry
 FAMILY["C14"] = fam_gate.check
+FAMILY["C19"] = fam_retry.check
